@@ -37,7 +37,7 @@ func (c *ScriptConn) Read(p []byte) (int, error) {
 		return 0, nil
 	}
 	rest := c.Slen - c.pos
-	inH := c.Rec.InHandler
+	inH := c.Rec.InHandler || c.Rec.InRoute
 	n := len(p)
 	if n > rest {
 		n = rest
@@ -122,6 +122,11 @@ func (c *ScriptConn) SetReadDeadline(t time.Time) error {
 		if l <= 0 {
 			l = -1 // armed, but not with any list's deadline
 		}
+	}
+	if c.Rec.InRoute {
+		// a handler of a matched route manages its own deadlines (proxy_protocol does)
+		c.Rec.AddAux(Ev{"e": "HDl", "l": l})
+		return nil
 	}
 	c.Rec.Add(Ev{"e": "Dl", "l": l})
 	return nil
